@@ -31,7 +31,7 @@ CHECKS = {
                       "try_* operation that parks or fails although the state it observed admitted it; plus 'all threads finish' as "
                       "vacuity witness."),
                 note=M_NOTE + " Quick: every 2-thread mix {R,W},{W,W},{R,R},{tryR,W},{tryW,R} at K=18..20 (race query at K=16); the "
-                     "3-thread mix {W,W,R} K=20 is a BUG-HUNTING query only (sat = violation; unsat is out of the solver's reach at this size "
+                     "3-thread mix {W,W,R} K=18 (420 s cap) is a BUG-HUNTING query only (sat = violation; unsat is out of the solver's reach at this size "
                      "and no verdict is recorded as 'undecided', not as held). Thorough: K=24..28 and three 3-thread hunting queries."),
     "C05": dict(engine="K", technique=K_TECH, design_ref="§14 (C05/C06)",
                 text=("Bounded model checking of the real thread::spawn, JoinHandle::join, JoinHandle::drop and the thread panic handler for ONE "
@@ -71,7 +71,7 @@ CHECKS = {
                       "any one system call may fail with any errno, execve succeeds or fails, and the parent's pipe read is scripted: spawn "
                       "returns only in the caller; at exec the program, argv, envp, cwd, ids, process group and stdio are exactly the "
                       "configured ones; a failing child step is reported with its positive errno; wait/try_wait report the kernel's status."),
-                note=K_NOTE_KERNEL + " Quick: <=1 arg/env entry, cwd/uid/stdin-pipe options; thorough: <=2, gid/pgroup/stdout descriptor."),
+                note=K_NOTE_KERNEL + " Quick: <=1 arg/env entry, cwd/uid options (stdin pipe on the parent side), one caller-supplied pre-exec step that may fail; thorough: <=2, stdin pipe on the child side, gid/pgroup/stdout descriptor."),
     "C14": dict(engine="K", technique=K_TECH, design_ref="§4 C14",
                 text=("Bounded model checking above a model file system inside the kernel stand-in: create_dir_all from every prefix-closed "
                       "prior state of the tree for a table of path shapes; File::copy for every source length and prior destination with "
@@ -87,7 +87,8 @@ CHECKS = {
     "C16": dict(engine="K", technique=K_TECH, design_ref="§4 C16",
                 text=("Bounded model checking of the library side: ancillary-data iteration over exactly-filled, larger and too-small control "
                       "buffers (no load outside, exactly the descriptors written), sockaddr_un/sockaddr_in conversions, and the ppoll wait "
-                      "logic (Timeout only after ppoll timed out with exactly the requested Duration, try_* never waits, EINTR retried)."),
+                      "logic (Timeout only after ppoll timed out with exactly the requested Duration, try_* never waits, EINTR retried; every accepted "
+                      "stream is created non-blocking and close-on-exec, for Unix and TCP listeners)."),
                 note=K_NOTE_KERNEL + " PARTIAL: byte transport by the real kernel, MiB-scale buffers and two-process timing are outside."),
     "C18": dict(engine="K", technique=K_TECH, design_ref="§4 C18",
                 text=("Bounded model checking of (1) setup_io_uring + drop above a kernel stand-in with exact mmap/munmap bookkeeping and one "
